@@ -44,6 +44,10 @@ CLAIMED = {
    text="Seeded search over rounds of concurrent document writes / channel moves / deletes and admin and sync-function grant changes for a user and its roles (role deletion, the same channel from several sources, loss and re-grant between two pulls), each round followed at a quiescent point by a pull of a protocol-following client that resumes from the last position it received, with revocation messages enabled and paging limits 0-3, optional node restart (cold caches, reloaded principals), tiny channel caches, CAS-retry and feed faults. The client does not interpret flag combinations: for every row it re-fetches that document as the user (body => keep, error / removed => purge). After every completed pull the client's documents must equal the documents whose current revision the user can see at that moment (computed from the stored documents' channels and the user's effective channels), with the right revisions; a document named by a revoked row must not be fetchable, and no revocation may name a document the user can still see.",
    note="Pulls are taken at quiescent points, as the statement speaks of completed pulls; the user's effective channels are taken from the authenticator (their correctness is C03's subject).",
    technique="deterministic simulation with a protocol-following replica model as oracle", design="4/C13"),
+ "C14": dict(level="exploration",
+   text="Seeded search over rounds of 1-3 concurrent writers on two documents of a real node: puts that add, keep (client stub with digest and revpos), replace and drop attachments, deletes and resurrections, conflicting pushed branches (allow_conflicts runs), identical content shared between names, revisions and documents, arbitrary binary content, revs_limit pruning, restarts, CAS mismatches and storage errors during the write, with obsolete-attachment removal switched on (cross-cluster versioning reported off, as a Couchbase Server bucket does by default) in three quarters of the runs and a directed flavour in which concurrent writers drop and re-add the same content. After every round: every leaf revision whose write was acknowledged is read back with attachments and compared byte for byte, digest and length with what that write kept or added, no leaf carries an attachment its write did not keep or add, every attachment data document referenced by a leaf exists, and (fault-free runs, removal on) data that no leaf references any more and that no rejected write re-stored has been removed.",
+   note="The last clause of the statement (a replication client may download an attachment only while it is sent a revision referencing it) lives in the BLIP handler and is not driven by this database-level harness. Attachment data stored by a write that was then rejected is an orphan no API reaches (attachment compaction's subject) and is not judged.",
+   technique="deterministic simulation with storage-level interleaving and CAS/err faults; per-revision reference model + storage existence oracle", design="4/C14"),
 }
 
 NA = {
